@@ -165,11 +165,22 @@ pub fn run(cfg: &J) -> J {
     // junk: token-alphabet splicing, multi-line, for the location clause
     let nj = cfg["random_junk"].as_u64().unwrap_or(3000);
     let all = all_parse_opts();
+    // the token corpus of the specification (every token class with its near misses, out-of-range numbers, bad
+    // escapes ...) joins the alphabet, so that every way of failing occurs on later lines and after short lines
+    let extra: Vec<Vec<u8>> = cfg["alphabet_extra"].as_array().map(|a| a.iter().map(j_bytes).collect()).unwrap_or_default();
+    const LAYOUT: &[&[u8]] = &[b" ", b"\n", b"\n\n", b" \n", b"(", b")", b"\t", b";c\n", b"\r\n", b"[", b"#(", b"'"];
     for i in 0..nj {
         let n = g.rng.gen_range(1..12);
         let mut t = Vec::new();
+        let from_corpus = !extra.is_empty() && i % 2 == 1;
         for _ in 0..n {
-            t.extend_from_slice(ALPHABET[g.rng.gen_range(0..ALPHABET.len())]);
+            if from_corpus {
+                // corpus tokens separated by layout, so that each stays one token
+                t.extend_from_slice(LAYOUT[g.rng.gen_range(0..LAYOUT.len())]);
+                t.extend_from_slice(&extra[g.rng.gen_range(0..extra.len())]);
+            } else {
+                t.extend_from_slice(ALPHABET[g.rng.gen_range(0..ALPHABET.len())]);
+            }
         }
         let ro = if i % 3 == 0 { g.pick(&all).clone() } else if i % 3 == 1 { dpo.clone() } else { epo.clone() };
         r.text(&t, &ro, 3);
